@@ -14,6 +14,7 @@ var errQueryNonNodeset = fmt.Errorf("cannot query nodes on non-NodeSet's")
 
 func init() {
 	contextFunctions[symbols.NT_AbsoluteLocationPathOnly] = execAbsoluteLocationPathOnly
+	contextFunctions[symbols.NT_AbsoluteLocationPathWithRelative] = execAbsoluteLocationPathWithRelative
 	contextFunctions[symbols.NT_RelativeLocationPathWithStep] = leftRightDependentResult
 	contextFunctions[symbols.NT_Step] = execStep
 	contextFunctions[symbols.NT_NodeTestAndPredicate] = leftRightDependentResult
@@ -44,6 +45,18 @@ func init() {
 
 func execAbsoluteLocationPathOnly(context *exprContext, expr *grammar.Grammar) error {
 	context.result = NodeSet{context.root}
+	return nil
+}
+
+func execAbsoluteLocationPathWithRelative(context *exprContext, expr *grammar.Grammar) error {
+	context.result = NodeSet{context.root}
+
+	for _, cn := range expr.BSR.GetAllNTChildren() {
+		for _, c := range cn {
+			return execContext(context, expr.Next(&c))
+		}
+	}
+
 	return nil
 }
 
